@@ -22,6 +22,7 @@ inside the command-line process (one forked child per crash point and exception 
 every access route.  The worker processes of that part are started first and run beside the replay; each runs AND judges
 its share (own TLC process) and returns a summary."""
 import collections
+import json
 import multiprocessing as mp
 import os
 import random
@@ -803,7 +804,9 @@ def run_histories(family, quick, ev, vd):
     if m['exact'] != m['observed']:
         print('NOTE C07: %d of %d observed finalisations / crash points are safe but not exactly the modelled primitive sequence' % (m['observed'] - m['exact'], m['observed']))
     ev.extra['history_classes'] = dict(sorted(m['classes'].items()))
-    ev.extra['histories_wall_s'] = round(m['wall'], 1)
+    ev.extra['histories_slowest_worker_s'] = round(m.get('worker_s', 0), 1)
+    for x in m['inexact'][:3]:
+        print('  not exactly as modelled: %s %s' % (x['scenario'].get('name') or x['scenario'].get('opts'), json.dumps(x['scenario'].get('ops'))[:600]))
 
 
 def replay(sc):
